@@ -98,9 +98,9 @@ func HarnessC20LogHTTPTimeout() {
 
 func HarnessC20LogHTTPCompression() {
 	c20Clear()
-	sig, gen := vndChoice(4), vndChoice(4)
-	c20Env("OTEL_EXPORTER_OTLP_LOGS_COMPRESSION", sig, "gzip", "zstd")
-	c20Env("OTEL_EXPORTER_OTLP_COMPRESSION", gen, "gzip", "snappy")
+	sig, gen := vndChoice(5), vndChoice(5)
+	c20CompEnv("OTEL_EXPORTER_OTLP_LOGS_COMPRESSION", sig)
+	c20CompEnv("OTEL_EXPORTER_OTLP_COMPRESSION", gen)
 	var opts []Option
 	opt := vndChoice(2) == 1
 	if opt {
@@ -108,11 +108,15 @@ func HarnessC20LogHTTPCompression() {
 	}
 	c := newConfig(opts)
 	vndReach("resolved")
+	w, sigBad := c20CompWant(sig, gen)
 	want := NoCompression
-	if !opt && (sig == c20Valid || (sig != c20Valid && gen == c20Valid)) {
+	if !opt && w == 1 {
 		want = GzipCompression
 	}
-	vndAssert(c.compression.Value == want, "compression-from-highest-precedence-source")
+	// an unsupported signal-specific value is either skipped (the generic value
+	// applies) or read as "no compression" (the default): C20 allows both
+	// ("ignored in favour of defaults or given their documented meaning")
+	vndAssert(c.compression.Value == want || (!opt && sigBad && c.compression.Value == NoCompression), "compression-from-highest-precedence-source")
 }
 
 func HarnessC20LogHTTPHeaders() {
@@ -141,4 +145,36 @@ func HarnessC20LogHTTPHeaders() {
 	} else {
 		vndAssert(len(c.headers.Value) == 1 && c.headers.Value[wantK] == wantV, "headers-from-highest-precedence-source")
 	}
+}
+
+// compression sources: absent, empty, "gzip", "none", unsupported
+var c20CompVals = []string{"\x00", "", "gzip", "none", "zstd"}
+
+func c20CompEnv(key string, i int) {
+	if i == 0 {
+		vndUnsetEnv(key)
+	} else {
+		vndSetEnv(key, c20CompVals[i])
+	}
+}
+
+// c20CompWant: what the two environment sources ask for: 0 nothing, 1 gzip,
+// 2 none; sigBad: the signal-specific value is present but unsupported
+func c20CompWant(sig, gen int) (want int, sigBad bool) {
+	conv := func(i int) int {
+		switch i {
+		case 2:
+			return 1
+		case 3:
+			return 2
+		}
+		return 0
+	}
+	if sig >= 2 {
+		if sig == 4 {
+			return conv(gen), true
+		}
+		return conv(sig), false
+	}
+	return conv(gen), false
 }
